@@ -124,6 +124,20 @@ func hasCircle(o geojson.Object) bool {
 	return false
 }
 
+// firstJSON: the FIRST serialisation of a fresh object goes through AppendJSON into a caller-owned
+// buffer with spare capacity, which is then overwritten: whatever the object may have kept of that
+// buffer (a cached slice instead of a copy) is now garbage, and every later serialisation shows it
+func firstJSON(o geojson.Object) string {
+	buf := make([]byte, 0, 4096)
+	res := o.AppendJSON(buf)
+	s := string(res)
+	full := res[:cap(res)]
+	for i := range full {
+		full[i] = '#'
+	}
+	return s
+}
+
 func objJSONCheck(o geojson.Object) string {
 	j := o.JSON()
 	mj, err := o.MarshalJSON()
@@ -182,7 +196,7 @@ func objOp(toks []string, line string) (string, bool) {
 			return "nil-object-without-error", true
 		}
 		oenv[toks[1]] = o
-		return "ok " + kindName(o) + " " + hx(o.JSON()), true
+		return "ok " + kindName(o) + " " + hx(firstJSON(o)), true
 	case "onew":
 		return onew(toks), true
 	case "ojson":
@@ -456,5 +470,5 @@ func onew(toks []string) string {
 		return "bad-op"
 	}
 	oenv[id] = o
-	return "ok " + kindName(o) + " " + hx(o.JSON())
+	return "ok " + kindName(o) + " " + hx(firstJSON(o))
 }
